@@ -199,11 +199,31 @@ func c15SysProto(env *core.Env, kind, src string, v any, want model.Temporal, cl
 	var back system.Any
 	var err error
 	representable := true
+	precisionLoss := ""
+	defer func() {
+		if precisionLoss != "" {
+			env.Cover("sys->proto-precision-only")
+			env.Violatef("C15/sys-proto/"+cls+"/precision-not-preserved", "%s (no offset): %s", src, precisionLoss)
+		}
+	}()
 	out := env.Guard("ToProto "+src, func() {
 		switch x := v.(type) {
 		case system.Date:
 			back, err = system.From(x.ToProtoDate())
 		case system.DateTime:
+			if want.Comps == 6 && !want.HasTZ {
+				// no offset: the element must be given one, so the value is not preserved; its precision (seconds, or
+				// seconds with a fraction) is, and so is the element's own consistency (a precision is set)
+				pe := x.ToProtoDateTime()
+				b2, e2 := system.From(pe)
+				if e2 != nil || b2 == nil {
+					precisionLoss = fmt.Sprintf("System -> proto -> System failed: %v", e2)
+				} else if bt, ok := model.ParseTemporal("DateTime", fx.Render(b2).T); !ok || bt.Comps != 6 || (bt.Frac != "") != (want.Frac != "") || pe.GetPrecision() == dtpb.DateTime_PRECISION_UNSPECIFIED {
+					precisionLoss = fmt.Sprintf("the element has precision %v and reads back as %s", pe.GetPrecision(), fx.Render(b2).T)
+				}
+				representable = false
+				return
+			}
 			if (want.Comps > 3 && want.Comps < 6) || (want.Comps >= 4 && !want.HasTZ) {
 				representable = false
 				return
@@ -781,6 +801,17 @@ func runC15(env *core.Env) {
 			}
 		}
 		nums = append(nums, b.String())
+	}
+	// digit strings around the 32- and 64-bit limits, with the decimal point at every position (a coefficient held in a
+	// machine word wraps there)
+	for _, digits := range []string{"9223372036854775807", "9223372036854775808", "9999999999999999999", "18446744073709551615", "18446744073709551616", "4294967295", "4294967296", "2147483648", "99999999999999999999", "10000000000000000000", "9223372036854775809"} {
+		for pos := 1; pos <= len(digits); pos++ {
+			if pos == len(digits) {
+				nums = append(nums, digits+".0")
+			} else {
+				nums = append(nums, digits[:pos]+"."+digits[pos:])
+			}
+		}
 	}
 	for _, t := range nums {
 		n++
